@@ -34,11 +34,23 @@ func newBarrierNode(et *ExecutingTask, n *pipeline.BarrierNode, d NodeDiagnostic
 	return bn, nil
 }
 
-func (n *BarrierNode) runBarrierEmitter([]byte) error {
-	defer n.stopBarrierEmitter()
+func (n *BarrierNode) runBarrierEmitter([]byte) (err error) {
+	failed := true
+	defer func() {
+		if failed {
+			// The node no longer reads its input edge. Abort it now, as node.start
+			// does anyway once this function has returned: an emitter blocked collecting
+			// a delete message into the full edge would otherwise never return
+			// and stopBarrierEmitter would wait for it for ever.
+			n.ins[0].Abort()
+		}
+		n.stopBarrierEmitter()
+	}()
 	consumer := edge.NewGroupedConsumer(n.ins[0], n)
 	n.statMap.Set(statCardinalityGauge, consumer.CardinalityVar())
-	return consumer.Consume()
+	err = consumer.Consume()
+	failed = err != nil
+	return err
 }
 
 func (n *BarrierNode) stopBarrierEmitter() {
